@@ -19,7 +19,7 @@ ASSUMPTIONS = ["aliasing the user creates by handing one mutable object to two u
 
 
 def bounds(tier):
-    leaves = ["list-int", "list-int-cd", "dict-typed", "dict-typed-cd", "list-str-req", "list-any-dflt", "dict-any-dflt", "dict-any-empty-dflt", "dict-typed-empty-dflt", "list-any-empty-dflt", "list-int-empty-dflt", "int09", "challenge-dflt", "any", "str-norm", "dict-of-lists", "list-of-lists", "file-in-homedir"]
+    leaves = ["list-int", "list-int-cd", "dict-typed", "dict-typed-cd", "list-str-req", "list-any-dflt", "dict-any-dflt", "dict-any-empty-dflt", "dict-typed-empty-dflt", "list-any-empty-dflt", "list-int-empty-dflt", "int09", "challenge-dflt", "any", "str-norm", "dict-of-lists", "list-of-lists", "file-in-homedir", "list-anyfield-dflt", "list-anyfield-empty-dflt"]
     if tier == "thorough":
         leaves = list(W.catalogue())
     return {"shapes": ["flat", "nested", "cfglist", "reuse", "dynamic"], "leaves": leaves, "depth": 3 if tier == "thorough" else 2}
@@ -46,7 +46,8 @@ def extra_ops(spec, leaf):
     """assign the sibling's typed containers to A; mutate configurations held in A's lists"""
     lspec = W.catalogue()[leaf][0]
     ops = [["render", "json"], ["render", "xml"]]
-    typed = (lspec["k"] == "List" and lspec.get("item")) or (lspec["k"] == "Dict" and (lspec.get("key") or lspec.get("val")))
+    typed = (lspec["k"] == "List" and lspec.get("item") and lspec["item"].get("k") != "Any") or (lspec["k"] == "Dict" and (lspec.get("key") or lspec.get("val")))
+    # (a list whose item field is an AnyField is an untyped list: handing B0's list object to A is aliasing the user creates)
     if typed:
         for p, f in W.leaf_paths(spec):
             if f == lspec and "[" not in p:
